@@ -32,7 +32,7 @@ func generateCountRule(count profile.CountRule, condition string, iriExpander *m
 	arrayVariable := profile.Genvar("propValues")
 	singleValueVariable := fmt.Sprintf("%s_elem", arrayVariable)
 
-	rego = append(rego, "#  querying path: "+path.Source())
+	rego = append(rego, queryingPathComment(path.Source()))
 	pathResult := GeneratePropertySet(path, count.Variable.Name, iriExpander)
 	rego = append(rego, fmt.Sprintf("%s = %s with data.sourceNode as %s", arrayVariable, pathResult.rule, count.Variable.Name))
 
